@@ -521,3 +521,28 @@ Theorem C19_nodes_labels : forall (ids idr : str -> N) (net : list rxn) (iso : l
   length (reaction_nodes (raw_export ids idr net iso)) = length (reaction_order net).
 Proof. exact nodes_labels. Qed.
 Print Assumptions C19_nodes_labels.
+
+(** (34) nor does the ORDER of the arcs: for ANY attributed graph, permuting the arc list changes no vector and not the complex
+         graph — with (29): they depend only on the multiset of (species end, reaction end, role, coefficient) incidences. *)
+Theorem C19_arc_order_irrelevant : forall (ns : list rnode) (A A' : list rarc), Permutation.Permutation A A' ->
+  (forall ro r, node_vec (RG ns A') ro r = node_vec (RG ns A) ro r) /\
+  complex_graph_nodes (RG ns A') = complex_graph_nodes (RG ns A).
+Proof. exact arc_order_irrelevant. Qed.
+Print Assumptions C19_arc_order_irrelevant.
+
+(** (35) (27) at full strength: the undirected (multi)graph may list the incidences of the export in ANY order and in either
+         orientation (networkx's edge order is an implementation detail): the converted graph has the export's arcs up to order and
+         gives the complex list and complex graph of the label-level model. *)
+Theorem C19_undirected_refine_any_order : forall (ids idr : str -> N) (net : list rxn) (iso : list str),
+  (forall s s', In s (species_set net iso) -> In s' (species_set net iso) -> ids s = ids s' -> s = s') ->
+  (forall e e', In e net -> In e' net -> idr (rid e) = idr (rid e') -> rid e = rid e') ->
+  (forall s e, In s (species_set net iso) -> In e net -> ids s <> idr (rid e)) ->
+  NoDup (map (fun a => (a_species a, a_rxn a, a_role a)) (bip_arcs net)) ->
+  forall E E0 : list rarc, Permutation.Permutation E E0 ->
+  Forall2 (fun e x => ra_role e = ra_role x /\ ra_stoich e = ra_stoich x /\
+                      ((ra_u e = ra_u x /\ ra_v e = ra_v x) \/ (ra_u e = ra_v x /\ ra_v e = ra_u x)))
+          E0 (rg_arcs (raw_export ids idr net iso)) ->
+  net <> [] -> species_set net iso <> [] ->
+  complex_graph_nodes (as_bipartite_undirected (RG (rg_nodes (raw_export ids idr net iso)) E)) = Some (complex_graph net iso).
+Proof. exact undirected_refine_perm. Qed.
+Print Assumptions C19_undirected_refine_any_order.
